@@ -204,7 +204,34 @@ GRIDS = {
     'g4326': {'srs': 'EPSG:4326', 'bbox': [4.0, 44.0, 16.0, 56.0], 'r0': 0.09375},
     'g25832': {'srs': 'EPSG:25832', 'bbox': [150000.0, 5000000.0, 150000.0 + 1048576.0, 5000000.0 + 1048576.0], 'r0': 8192.0},
 }
+# the same ladders on extents that are NOT a whole number of tiles on any level: the last column and the top (ll) or bottom
+# (ul) row of every level overhang the grid bbox
+for _g, (_fx, _fy) in (('g3857', (0.81, 0.63)), ('g4326', (0.57, 0.91)), ('g25832', (0.73, 0.77))):
+    _G = GRIDS[_g]
+    _w, _h = _G['bbox'][2] - _G['bbox'][0], _G['bbox'][3] - _G['bbox'][1]
+    GRIDS[_g + 'n'] = {'srs': _G['srs'], 'r0': _G['r0'], 'cut': (_fx, _fy), 'base': list(_G['bbox']), 'bbox': None}
 NLEVELS = 8
+
+
+def grid_bbox(gname, origin):
+    """bbox of a grid as configured; cut grids keep the corner their origin is anchored at"""
+    G = GRIDS[gname]
+    if 'cut' not in G:
+        return list(G['bbox'])
+    b = G['base']
+    w, h = (b[2] - b[0]) * G['cut'][0], (b[3] - b[1]) * G['cut'][1]
+    if origin == 'ul':
+        return [b[0], b[3] - h, b[0] + w, b[3]]
+    return [b[0], b[1], b[0] + w, b[1] + h]
+
+
+def grid_tiles(gname, origin, z):
+    """matrix size by MapProxy's rule: whole pixels of the bbox, then whole tiles"""
+    G = GRIDS[gname]
+    b = grid_bbox(gname, origin)
+    r = G['r0'] / 2 ** z
+    wpx, hpx = math.floor((b[2] - b[0]) / r), math.floor((b[3] - b[1]) / r)
+    return max(1, int(math.ceil(wpx / float(TILE)))), max(1, int(math.ceil(hpx / float(TILE))))
 WMS_SRS = ['EPSG:4326', 'EPSG:3857', 'EPSG:25832']
 
 SHAPES = {
@@ -247,7 +274,31 @@ def gen_scenario(rng):
         leaves[name] = leaf
     semi = rng.choice(sorted(n for n, lf in leaves.items() if lf['kind'] != 'cache_jpeg'))
     leaves[semi]['up'] += 's'
-    return {'shape': shape, 'leaves': leaves, 'resampling': rng.choice(['nearest', 'nearest', 'nearest', 'bilinear'])}
+    spec = {'shape': shape, 'leaves': leaves, 'resampling': rng.choice(['nearest', 'nearest', 'nearest', 'bilinear'])}
+    # explicit extents per SRS for the WMS (bbox_srs): requests overhanging them are rendered as a smaller sub-query
+    spec['bbox_srs'] = rng.random() < 0.3
+    return spec
+
+
+BBOX_SRS_LONLAT = (7.5, 48.5, 12.0, 52.5)
+
+
+def bbox_srs_conf():
+    out = []
+    for srs in WMS_SRS:
+        if srs == 'EPSG:4326':
+            b = list(BBOX_SRS_LONLAT)
+        else:
+            t = transformer('EPSG:4326', srs)
+            xs, ys = [], []
+            for lon, lat in ((BBOX_SRS_LONLAT[0], BBOX_SRS_LONLAT[1]), (BBOX_SRS_LONLAT[2], BBOX_SRS_LONLAT[1]),
+                             (BBOX_SRS_LONLAT[0], BBOX_SRS_LONLAT[3]), (BBOX_SRS_LONLAT[2], BBOX_SRS_LONLAT[3])):
+                x, y = t.transform(lon, lat)
+                xs.append(x)
+                ys.append(y)
+            b = [min(xs), min(ys), max(xs), max(ys)]
+        out.append({'srs': srs, 'bbox': b})
+    return out
 
 
 def build(spec, d):
@@ -274,7 +325,7 @@ def build(spec, d):
             conf['caches']['c_' + name] = c
     for gname, g, origin in used_grids:
         G = GRIDS[g]
-        conf['grids'][gname] = {'srs': G['srs'], 'bbox': list(G['bbox']), 'origin': origin, 'tile_size': [TILE, TILE],
+        conf['grids'][gname] = {'srs': G['srs'], 'bbox': grid_bbox(g, origin), 'origin': origin, 'tile_size': [TILE, TILE],
                                 'res': [G['r0'] / 2 ** z for z in range(NLEVELS)]}
 
     def lyr(node):
@@ -293,6 +344,8 @@ def build(spec, d):
         'wms': {'srs': list(WMS_SRS), 'image_formats': ['image/png', 'image/jpeg'], 'md': {'title': 'c10'},
                 'featureinfo_types': ['text', 'html', 'xml']},
     }
+    if spec.get('bbox_srs'):
+        conf['services']['wms']['bbox_srs'] = bbox_srs_conf()
     sc = scenario.Scenario(d, conf)
     up = upstream.install()
     h = LayersWMS()
@@ -783,13 +836,14 @@ def tile_rows_from_top(service, leaf):
 
 def tile_frame(leaf, z, x, y, nw):
     G = GRIDS[leaf['grid']]
+    b = grid_bbox(leaf['grid'], leaf['origin'])
     span = G['r0'] / 2 ** z * TILE
-    x0 = G['bbox'][0] + x * span
+    x0 = b[0] + x * span
     if nw:
-        y1 = G['bbox'][3] - y * span
+        y1 = b[3] - y * span
         y0 = y1 - span
     else:
-        y0 = G['bbox'][1] + y * span
+        y0 = b[1] + y * span
         y1 = y0 + span
     return Frame(G['srs'], (x0, y0, x0 + span, y1), (TILE, TILE))
 
@@ -801,9 +855,21 @@ def gen_tile_probe(rng, spec, fi=False):
     name = rng.choice(cached)
     leaf = spec['leaves'][name]
     z = rng.randint(1, 6)
-    n = 2 ** z
-    x, y = rng.randrange(n), rng.randrange(n)
+    nx, ny = grid_tiles(leaf['grid'], leaf['origin'], z)
+    x, y = rng.randrange(nx), rng.randrange(ny)
+    if 'cut' in GRIDS[leaf['grid']] and rng.random() < 0.5:
+        # border tiles: last column, and the row that overhangs (counted from the corner the grid is anchored at)
+        x, y = rng.choice([(nx - 1, y), (x, ny - 1), (nx - 1, ny - 1)])
     service = rng.choice(['wmts_fi_kvp', 'wmts_fi_rest']) if fi else rng.choice(TILE_SERVICES)
+    if 'cut' in GRIDS[leaf['grid']]:
+        # rows of such a grid cannot be counted from the other end (the services refuse or shift, see C02): only the
+        # services whose row convention is the grid's own
+        if leaf['origin'] == 'ul':
+            service = rng.choice(['wmts_fi_kvp', 'wmts_fi_rest']) if fi else rng.choice(['tiles', 'tiles_nw', 'wmts_kvp', 'wmts_rest'])
+        else:
+            if fi:
+                return None
+            service = rng.choice(['tms', 'tiles', 'kml', 'kml_doc'])
     frame = tile_frame(leaf, z, x, y, tile_rows_from_top(service, leaf))
     auth = gen_auth(rng, spec, frame, [name])
     probe = {'service': service, 'req': {'layer': name, 'z': z, 'x': x, 'y': y}, 'auth': auth,
@@ -987,6 +1053,16 @@ def exec_probe(ctx, probe):
     run.hit('requests')
     run.hit('svc_' + svc)
     if not auth.calls:
+        if ctx.spec.get('bbox_srs') and svc in ('wms_map', 'wms_fi'):
+            ext = [e['bbox'] for e in bbox_srs_conf() if e['srs'] == probe['req']['srs']][0]
+            b = probe['req']['bbox']
+            if not (min(b[2], ext[2]) > max(b[0], ext[0]) and min(b[3], ext[3]) > max(b[1], ext[1])):
+                # wholly outside the extent configured for this SRS: answered blank before any layer is looked at
+                run.dc('request_outside_the_configured_srs_extent')
+                if svc == 'wms_map' and r.code == 200 and calls:
+                    viol(ctx, probe, {'service': svc, 'clause': 'upstream_call_without_authorization'},
+                         'no authorization callback but %d upstream calls' % len(calls))
+                return
         viol(ctx, probe, {'service': svc, 'clause': 'callback_not_called'}, 'the authorization callback was never called')
         return
     if svc == 'wms_map':
